@@ -132,7 +132,7 @@ CHECKS = {
                         "EclipseState and SummaryConfig are round-tripped and compared but the run does not continue on their replicas (EclipseIO keeps its own copies; grid and field properties are distributed separately)",
                         "packed length is compared with the original packed at the same moment: lazily filled caches that are serialised make the length of one object depend on earlier queries"],
         "bins": [{"name": "c11", "srcs": ["scen/c11_serial.cpp", "scen/srun/model.cpp", "scen/srun/driver.cpp", "scen/srun/schedcmp.cpp", "scen/srun/packing.cpp"],
-                  "quick": {"count": 200, "budget": 75, "workers": 8},
+                  "quick": {"count": 360, "budget": 75, "workers": 8},
                   "thorough": {"count": 100000, "budget": 900, "workers": 16}}],
     },
     "C13": {
